@@ -433,7 +433,7 @@ def execute(doc: dict) -> dict:
     from moptipyapps.binpacking2d.packing_space import PackingSpace
 
     res = core.new_result()
-    inst = packgen.build_instance(doc["inst"])
+    inst = packgen.build_instance(doc["inst"], packgen.scenario_name(doc))
     W, H = int(inst.bin_width), int(inst.bin_height)
     items = [[int(v) for v in row] for row in inst]
     n_items = int(inst.n_items)
@@ -599,7 +599,7 @@ def _run_case(doc, case, ci, res, inst, space, W, H, items, n_items, lo, hi):
             path = os.path.join(
                 wd, "c04-%d-%s.txt" % (os.getpid(), core.digest(
                     [doc["inst"], case, ci])[:16]))
-            name = doc["inst"].get("resource", "sim")
+            name = doc["inst"].get("resource", str(inst))
             _write_log(path, space, y0, name)
             with open(path, encoding="utf-8") as fh:
                 text = fh.read()
